@@ -23,12 +23,12 @@ type H struct{}
 
 // OptSpec describes one registered option.
 type OptSpec struct {
-	Type     int    `json:"type"` // 1 string, 2 string array, 3 int, 4 bool
-	Regex    int    `json:"regex,omitempty"`
-	Possible bool   `json:"possible,omitempty"`
-	ValFn    bool   `json:"valfn,omitempty"`
-	Release  int    `json:"release,omitempty"`
-	Default  int    `json:"default"` // index into the valid defaults of the type
+	Type     int  `json:"type"` // 1 string, 2 string array, 3 int, 4 bool
+	Regex    int  `json:"regex,omitempty"`
+	Possible bool `json:"possible,omitempty"`
+	ValFn    bool `json:"valfn,omitempty"`
+	Release  int  `json:"release,omitempty"`
+	Default  int  `json:"default"` // index into the valid defaults of the type
 }
 
 // Op is one setter-side operation.
@@ -255,7 +255,7 @@ type mval struct {
 }
 
 type mstate struct {
-	user, def []mval // per option
+	user, def       []mval // per option
 	relUser, relDef mval
 }
 
